@@ -8,3 +8,4 @@ python3 "$HERE/gen/keymaps.py" "$REPO" "$HERE/lean/RimeModel/Gen/Keymaps.lean" >
 python3 "$HERE/gen/c17_members.py" "$REPO" "$HERE/lean/RimeModel/Gen/UserDbMembers.lean" "$HERE/harness/gen/c17_members.inc" > /dev/null
 python3 "$HERE/gen/c15_session_api.py" "$REPO" "$HERE/lean/RimeModel/Gen/SessionApi.lean" > /dev/null
 python3 "$HERE/gen/deploy_facts.py" "$REPO" "$HERE/lean/RimeModel/Gen/DeployFacts.lean" > /dev/null
+python3 "$HERE/gen/c18_emit.py" "$REPO" "$HERE/lean/RimeModel/Gen/C18Emit.lean" > /dev/null
